@@ -6,10 +6,10 @@ from . import vlib
 DFOLS_DEFAULTS = dict(MaxFun=5, NPT=2, VMax=2, Small="NoSmall", MaxSamples=1, WithInf=False, UseRestarts=False, SoftRestarts=True,
                       MaxUnsucc=2, NumGeom=1, MoveXk=True, UseOldRk=True, IncNpt=0, RhoLevels=2, RhoendScaleDrop=0, MaxRuns=3,
                       DefSoftSwap=False, DefTrialLost=False, DefX0EvalNum=False, DefHardEvalNum=False, DefDoubleNruns=False,
-                      DefCtrlRhoend=False, DefSuccessNonFinite=False, DefNaNCompare=False, DefSwapNs=False)
+                      DefCtrlRhoend=False, DefSuccessNonFinite=False, DefAutoFlagLeak=False, DefNaNCompare=False, DefSwapNs=False)
 DFOLS_INVARIANTS = ["TypeOK", "C02_Budget", "C02_Counters", "C02_NfIsSum", "C02_Samples", "C03_EveryIter", "C03_Returned", "C04_BestKept",
                     "C04_EveryIter", "C08_FiniteRetained", "C10_SmallTruth", "C10_RhoendTruth", "C10_MaxfunTruth", "C10_UnsuccTruth",
-                    "C10_Nruns", "C10_SuccessFinite", "C11_JacNames", "C11_Snapshot", "C18_Radii"]
+                    "C10_Nruns", "C10_SuccessFinite", "C07_DocumentedFlag", "C11_JacNames", "C11_Snapshot", "C18_Radii"]
 DFOLS_ACTION_PROPS = ["C02_Monotone", "C04_Monotone"]
 
 
